@@ -33,6 +33,7 @@ PIDX = {"S": 1, "O": 2, "I": 3}
 SIB = {"S": "S", "O": "I", "I": "O"}
 K12 = ["a1e", "a1i", "a2e", "a2i"]
 THREADS = [1, 2, 4, 16]
+HEADER_KINDS = ["txid_len", "hash_len", "prev_len", "height_big", "txindex_big"]
 SETUP_TRACKED = [{"n": 10 * PIDX[p] + a, "p": p, "a": a} for p in POOLS for a in (1, 2)]
 
 
@@ -99,11 +100,11 @@ def out_of(label, t, p, i):
     return {"o": label, "v": 1000 * t + 100 * PIDX[p] + 10 * i + 1, "n": 0 if label in ("f", "m") else 100 * t + 10 * PIDX[p] + i}
 
 
-def rand_block_case(rng):
+def rand_block_case(rng, clean=False):
     """One abstract block of the big shape (<=3 txs x <=3 outputs per pool x <=2 Sapling spends), any
-    prior / continuity / metadata / key set."""
+    prior / continuity / metadata / key set (clean: connected, consistent, well-formed, prior known)."""
     ntx = rng.choice([0, 1, 1, 2, 2, 3, 3])
-    pm = 0.04 if rng.random() < 0.3 else 0.0
+    pm = 0.04 if rng.random() < 0.3 and not clean else 0.0
     txs = []
     for t in range(1, ntx + 1):
         tx = {}
@@ -118,7 +119,7 @@ def rand_block_case(rng):
             tx[p] = {"sp": sp, "out": out}
         txs.append(tx)
     count = {p: sum(len(tx[p]["out"]) for tx in txs) for p in POOLS}
-    if rng.random() < 0.25:
+    if rng.random() < 0.25 and not clean:
         prior = {"k": "none"}
         known = {p: False for p in POOLS}
     else:
@@ -127,6 +128,10 @@ def rand_block_case(rng):
     start = {p: (prior["sz"][p] if prior["k"] == "some" and known[p] else rng.randint(0, 40)) for p in POOLS}
     tru = {p: start[p] + count[p] for p in POOLS}
     mk = rng.choice(["ok", "ok", "ok", "absent", "absent", "short", "long", "lt", "zero"])
+    if clean:
+        mk = "ok"
+        known = {p: True for p in POOLS}
+        prior["sz"] = dict(start)
     mp = rng.choice(POOLS)
     if mk == "absent":
         meta = {"k": "absent"}
@@ -142,10 +147,27 @@ def rand_block_case(rng):
             sz = {p: 0 for p in POOLS}
         meta = {"k": "given", "sz": sz}
     nact = rng.choice([0, 1, 2, 3, 3, 3])
-    block = {"h": 10 + rng.choice([1, 1, 1, 1, 1, 1, 0, 2, 5]), "hash": 2, "prev": rng.choice([1, 1, 1, 1, 3]),
+    block = {"h": 11 if clean else 10 + rng.choice([1, 1, 1, 1, 1, 1, 0, 2, 5]), "hash": 2, "prev": 1 if clean else rng.choice([1, 1, 1, 1, 3]), "bad": "none",
              "act": {p: PIDX[p] <= nact for p in POOLS}, "meta": meta, "txs": txs}
     keys = rng.choice([K12, K12, K12, ["a1e", "a1i"], ["a1i", "a2e"], ["a2e", "a2i"], ["a1e"]])
     return {"kind": "block", "prior": prior, "block": block, "keys": keys, "tracked": SETUP_TRACKED}
+
+
+def header_block_cases(rng, per_kind):
+    """Blocks with a header-level field that cannot be parsed (otherwise arbitrary)."""
+    out = []
+    for kind in HEADER_KINDS:
+        n = 0
+        while n < per_kind:
+            # the first of each kind is otherwise clean, so that the malformed field is certainly reached
+            c = rand_block_case(rng, clean=(n == 0))
+            b = c["block"]
+            if not b["txs"] or (kind == "prev_len" and (c["prior"]["k"] != "some" or b["h"] != 11)):
+                continue
+            b["bad"] = kind
+            out.append(c)
+            n += 1
+    return out
 
 
 class WalletGen:
@@ -213,7 +235,7 @@ class WalletGen:
     def block(self, k, txs, meta="ok"):
         tag = 100 + self.next_tag
         self.next_tag += 1
-        return {"h": self.top + k, "hreal": self.top + k, "hash": tag, "prev": None, "act": {p: True for p in POOLS},
+        return {"h": self.top + k, "hreal": self.top + k, "hash": tag, "prev": None, "bad": "none", "act": {p: True for p in POOLS},
                 "meta": meta, "txs": txs}
 
     def finish(self, blocks, kind, bad_at=0, note=""):
@@ -295,6 +317,8 @@ class WalletGen:
             b["meta"] = ("long", pool, self.rng.choice([1, 7]))
         elif what == "meta_zero":
             b["meta"] = ("zero", pool, 0)
+        elif what.startswith("hdr:"):
+            b["bad"] = what[4:]
         elif what == "nf":
             p = self.rng.choice(POOLS)
             tx = b["txs"][-1]
@@ -351,6 +375,8 @@ def wallet_scenarios(ctx, rng):
     for what in ["height", "height_same", "prev", "meta_short", "meta_long", "meta_zero", "nf", "nf", "out", "out", "out"]:
         for (nb, k) in ([(1, 1), (3, 3)] if q else [(1, 1), (2, 2), (3, 2), (3, 3)]):
             plan.append(("corrupt", what, nb, k))
+    for kind in HEADER_KINDS:
+        plan.append(("corrupt", "hdr:" + kind, 2, rng.choice([1, 2])))
     pads = []
     for i, total in enumerate([99, 100, 101, 250]):
         pool = POOLS[(i + ctx.seed) % 3]
@@ -460,6 +486,30 @@ def judge_block(ctx, res):
                       % ("; ".join(m["why"])[:900], json.dumps((m.get("input") or {}).get("prior"))[:200],
                          json.dumps((m.get("input") or {}).get("block"))[:700]))
 
+def judge_header_panics(ctx, res, mode, scenarios=None, threads=None):
+    """Panics on blocks whose header-level fields cannot be parsed are excused exactly while
+    known_findings.json lists (corruption kind, outcome panic, message fragment) as open."""
+    open_f = {f["match"]["corruption"]: f for f in lib.load_known_findings()
+              if f.get("property") == "C05" and f.get("status") == "open" and f.get("match", {}).get("outcome") == "panic"}
+    seen = {}
+    for kind, h in sorted((res.get("header_panics") or {}).items()):
+        f = open_f.get(kind)
+        frag = (f or {}).get("match", {}).get("panic_contains")
+        if f and frag and all(frag in m for m in h["messages"]):
+            lib.known_finding(ctx, "id=%s %s" % (f["id"], f["what"][:300]))
+            seen[kind] = h["count"]
+            continue
+        if mode == "block":
+            rep = {"property": "C05", "kind": "block", "seed": ctx.seed, "case": h["example"], "got": {"panic": h["messages"]}}
+        else:
+            sid = h["example"]["id"]
+            rep = {"property": "C05", "kind": "wallet", "seed": ctx.seed, "threads": threads,
+                   "scenarios": [s for s in scenarios if s["id"] <= sid], "got": {"panic": h["messages"]}}
+        lib.violation(ctx, rep, "%s panicked on a block whose %s cannot be parsed (%d blocks): %s"
+                      % ("scan_block" if mode == "block" else "scan_cached_blocks", kind, h["count"], h["messages"][:2]))
+    return seen
+
+
 def judge_wallet(ctx, res, scenarios, threads):
     for m in res["mismatches"][:1]:
         sid = m.get("case")
@@ -556,6 +606,7 @@ def run(ctx):
         fam_counts[name] = len(cs)
         cases += cs
     rnd = [rand_block_case(rng) for _ in range(1500 if ctx.quick() else 20000)]
+    rnd += header_block_cases(rng, 4 if ctx.quick() else 40)
     tlc_eval(ctx, d, rnd, "random")
     for c in rnd:
         c["fam"] = "random"
@@ -567,6 +618,7 @@ def run(ctx):
     if res["cases"] != len(cases) and not any(m.get("kind") == "setup" for m in res["mismatches"]):
         raise lib.ToolError("block replay consumed %d of %d cases" % (res["cases"], len(cases)))
     judge_block(ctx, res)
+    excused = {"scan_block": judge_header_panics(ctx, res, "block")}
 
     wallet_stats = {}
     for n in THREADS:
@@ -574,6 +626,7 @@ def run(ctx):
         lib.log("[replay] scan_cached_blocks threads=%d: %s scenarios, stats %s" % (n, wr["scenarios"], wr.get("stats")))
         wallet_stats[str(n)] = {"scenarios": wr["scenarios"], "stats": wr.get("stats", {})}
         judge_wallet(ctx, wr, scenarios, n)
+        excused["scan_cached_blocks threads=%d" % n] = judge_header_panics(ctx, wr, "wallet", scenarios, n)
         if not wr["mismatches"] and wr["scenarios"] != len(scenarios):
             raise lib.ToolError("wallet replay (threads=%d) ran %s of %d scenarios" % (n, wr["scenarios"], len(scenarios)))
 
@@ -607,6 +660,7 @@ def run(ctx):
                     "predicted_receipts": [r for b in ex["exp"]["res"] for r in b["recv"]][:6]})
     ctx.extra["block_replay"] = {"families": fam_counts, "expected_classes": classes, "with_change": changes,
                                  "with_internal_scope": internal, "harness_stats": res.get("stats", {})}
+    ctx.extra["header_panics_excused_as_known_findings"] = excused
     ctx.extra["wallet_replay"] = {"scenario_kinds": wkinds, "per_thread_count": wallet_stats}
     lib.mc_evidence(
         ctx,
@@ -635,12 +689,14 @@ def replay(ctx, path):
     if rep["kind"] == "block":
         res = run_block_mode(ctx, bindir, [rep["case"]], "replay")
         judge_block(ctx, res)
-        if not res["mismatches"]:
+        judge_header_panics(ctx, res, "block")
+        if not res["mismatches"] and not ctx.violations:
             lib.log("replay: the block now agrees with the specification")
     else:
         res = run_wallet_mode(ctx, bindir, rep["scenarios"], rep["threads"], "replay")
         judge_wallet(ctx, res, rep["scenarios"], rep["threads"])
-        if not res["mismatches"]:
+        judge_header_panics(ctx, res, "wallet", rep["scenarios"], rep["threads"])
+        if not res["mismatches"] and not ctx.violations:
             lib.log("replay: the scenarios now agree with the specification")
 
 
